@@ -358,6 +358,10 @@ def r16_5(run):
     rc = run.idx.cls('Router', 'router')
     fs = [u for u in run.idx.all_units() if u.owner_cls is rc and u.name == 'flags' and any('setter' in d for d in u.decorators())]
     ok = bool(fs) and any(isinstance(n, ast.ListComp) and 'lower()' in src(n.elt) for n in walk_unit(fs[0]))
+    if fs and not ok:
+        # the same as a loop: every element appended to what becomes self._flags is <x>.lower()
+        apps = [c for c in calls_in(fs[0]) if callee_attr(c) == 'append' and c.args]
+        ok = bool(apps) and all('lower()' in src(c.args[0]) for c in apps)
     run.ob('R16.5', fs[0] if fs else rc.file, fs[0].node if fs else rc.node, 'the flags setter lower-cases every flag', ok, slot='setter-lower', message='Router.flags setter does not lower-case')
     # flags assigned after reuse lookup, before membership tests
     fa = [n for n in g.real_nodes() if n.kind == 'stmt' and isinstance(n.ast, ast.Assign) and any((dotted(t) or '').endswith('.flags') for t in n.ast.targets)]
